@@ -686,6 +686,118 @@ func (m *Model) rulePKGSTATE(r *Results) {
 		r.check(bad == "", rule, "package-level table "+g.Name()+" / read-only after initialisation", m.pos(g.Pos()), "only indexed, ranged over or formatted outside the package initialiser", "the package-level "+g.Name()+" is written, or handed to a function that may write it, at "+bad+": it is shared by every bucket and goroutine and nothing guards it, so concurrent operations overwrite one another's data")
 	}
 	r.ok(rule, "package-level tables", "-", "%d package-level slice/array/map variable(s)", nt)
+	// An object taken from a sync.Pool goes back to it for the next caller: no function that
+	// puts an object back returns bytes that still live inside that object.
+	np := 0
+	for _, fn := range m.Funcs {
+		var pooled []ssa.Value
+		putsBack := false
+		m.eachCall(fn, func(c ssa.CallInstruction) {
+			g := c.Common().StaticCallee()
+			if g == nil || g.Pkg == nil || g.Pkg.Pkg.Path() != "sync" || g.Signature.Recv() == nil || !isPtrToNamed(g.Signature.Recv().Type(), "sync", "Pool") {
+				return
+			}
+			switch g.Name() {
+			case "Put":
+				putsBack = true
+			case "Get":
+				if v := c.Value(); v != nil {
+					pooled = append(pooled, v)
+				}
+			}
+		})
+		if !putsBack || len(pooled) == 0 {
+			continue
+		}
+		np++
+		tainted := map[ssa.Value]bool{}
+		obj := map[ssa.Value]bool{}
+		for _, v := range pooled {
+			obj[v] = true
+		}
+		isSliceOrString := func(t types.Type) bool {
+			switch u := t.Underlying().(type) {
+			case *types.Slice:
+				return true
+			case *types.Basic:
+				return u.Kind() == types.String && false // a string conversion copies
+			}
+			return false
+		}
+		for changed, round := true, 0; changed && round < 8; round++ {
+			changed = false
+			for _, b := range fn.Blocks {
+				for _, ins := range b.Instrs {
+					v, ok := ins.(ssa.Value)
+					if !ok || tainted[v] || obj[v] {
+						continue
+					}
+					mark := false
+					switch x := ins.(type) {
+					case *ssa.TypeAssert:
+						if obj[x.X] {
+							obj[v], changed = true, true
+						}
+						continue
+					case *ssa.Extract:
+						if obj[x.Tuple] {
+							obj[v], changed = true, true
+							continue
+						}
+						mark = tainted[x.Tuple]
+					case *ssa.Call:
+						if bi, isB := x.Common().Value.(*ssa.Builtin); isB {
+							if bi.Name() == "append" && len(x.Common().Args) > 0 {
+								mark = tainted[x.Common().Args[0]] // appending TO a pooled slice; appending its bytes to a fresh one copies
+							}
+							break
+						}
+						if !isSliceOrString(x.Type()) {
+							break
+						}
+						for _, a := range x.Common().Args {
+							if obj[a] || tainted[a] {
+								mark = true
+							}
+						}
+					case *ssa.Slice:
+						mark = tainted[x.X]
+					case *ssa.Phi:
+						for _, e := range x.Edges {
+							if tainted[e] {
+								mark = true
+							}
+						}
+					case *ssa.UnOp:
+						if x.Op == token.MUL {
+							if al, ok := x.X.(*ssa.Alloc); ok {
+								for _, st := range cellStores(al) {
+									if tainted[st.Val] {
+										mark = true
+									}
+								}
+							}
+						}
+					case *ssa.ChangeType:
+						mark = tainted[x.X]
+					}
+					if mark {
+						tainted[v], changed = true, true
+					}
+				}
+			}
+		}
+		bad := ""
+		for _, ret := range returnsOf(fn) {
+			for _, res := range ret.Results {
+				if tainted[res] {
+					bad = m.instrPos(ret)
+				}
+			}
+		}
+		r.check(bad == "", rule, m.declName(fn)+" / nothing returned lives in an object put back into a pool", m.pos(fn.Pos()), "no result is a slice of a pooled object's memory", "the function puts an object back into a sync.Pool and returns (at "+bad+") bytes that still live inside it: the next caller that takes the object from the pool overwrites what this caller is holding")
+	}
+	r.ok(rule, "pooled objects", "-", "%d function(s) that take an object from a sync.Pool and put it back", np)
 }
 
 // readOnlyCallee: the call cannot write through a slice, array or map argument.
